@@ -165,9 +165,13 @@ func (g *Gen) Mixed(id string, n, maxTx int, kinds []string) *Scenario {
 	sc := &Scenario{ID: id, Genesis: g.G}
 	for i := 0; i < n; i++ {
 		g.curH = int64(i + 1)
-		b := SBlock{DT: int64(g.rng(1, 20)), Proposer: g.pick(g.vals)}
-		if g.R.Intn(4) == 0 {
-			b.DT = int64(g.rng(100000, 3000000)) // jump: crosses reward cycles and years
+		// block times are on the scale of the reward schedule (a reward year is about 30 blocks)
+		b := SBlock{DT: int64(g.rng(500000, 1500000)), Proposer: g.pick(g.vals)}
+		switch g.R.Intn(8) {
+		case 0:
+			b.DT = int64(g.rng(1, 20))
+		case 1:
+			b.DT = int64(g.rng(3000000, 9000000)) // jump: crosses reward cycles and years
 		}
 		if g.R.Intn(5) == 0 {
 			b.Absent = []string{g.pick(g.vals)}
